@@ -723,6 +723,7 @@ def stage2(ctx, sv_inputs, sv_seen):
         else:
             outs = {r["id"]: r["out"] for r in read_jsonl(outf)}
             clean = 0
+            wf = 0
             for inp in inputs:
                 o = outs.get(inp["id"])
                 if o is None:
@@ -731,7 +732,14 @@ def stage2(ctx, sv_inputs, sv_seen):
                 report_model_discrepancies(ctx, inp, o, counts, "storesql")
                 if "driver_error" not in o and not o["discrepancies"] and not o["frame"]:
                     clean += 1
+                if "driver_error" not in o:
+                    if o.get("wellFormed"):
+                        wf += 1
+                    else:
+                        # outside the hypothesis of C04.projection_refines_replay: a metadata map with a key twice cannot come out of a Go map
+                        ctx.l2_broken.append({"stream": "storesql-history-not-well-formed", "id": inp["id"], "input": inp})
             info["histories"] = {"compared": len(inputs), "agreeing_on_every_clause": clean,
+                                 "satisfying WellFormedHistory (the hypothesis of C04.projection_refines_replay: distinct keys in every metadata map)": wf,
                                  "histories_by_discrepancy (class | shape)": dict(sorted(counts.items())),
                                  "rows_projected": {k: sum(o["rows"][k] for o in outs.values() if "rows" in o) for k in
                                                     ("logs", "transactions", "moves", "accounts", "transactions_metadata", "accounts_metadata")}}
@@ -747,7 +755,8 @@ def stage2(ctx, sv_inputs, sv_seen):
         else:
             o = rows[0]["out"]
             info["small_scope_enumeration"] = {"depth": depth, "histories": o["histories"], "with_a_discrepancy": o["discrepant"],
-                                               "frame_breaks": o["frameBreaks"], "histories_by_discrepancy (class | shape)": o["counts"],
+                                               "frame_breaks": o["frameBreaks"], "satisfying_WellFormedHistory": o.get("wellFormed"),
+                                               "histories_by_discrepancy (class | shape)": o["counts"],
                                                "alphabet": "ledgers l (all entry kinds) and m; accounts a, b (c for script metadata); one asset; amount 1; "
                                                            "timestamps before / at / after everything; see lean/Model/Store/Search.lean"}
             for w in o["witnesses"]:
